@@ -2,8 +2,8 @@
    these definitions of /repo; tools/srcfacts.py regenerates their normal-form digests on every run (coq/Gen/Src_*.v).
    Statements only. *)
 From Coq Require Import List String.
-From ME Require Import Model.SrcExpected Gen.Src_metrics Gen.Src_retry Gen.Src_throttle
-  Proofs.Src_ok_metrics Proofs.Src_ok_retry Proofs.Src_ok_throttle.
+From ME Require Import Model.SrcExpected Gen.Src_metrics Gen.Src_retry Gen.Src_throttle Gen.Src_metrics_prom
+  Proofs.Src_ok_metrics Proofs.Src_ok_retry Proofs.Src_ok_throttle Proofs.Src_ok_metrics_prom.
 
 (* more_executors/_impl/metrics/__init__.py *)
 Theorem c20_source_metrics : Src_metrics.facts = expected_metrics.
@@ -14,7 +14,11 @@ Proof. exact src_retry_ok. Qed.
 (* more_executors/_impl/throttle.py *)
 Theorem c20_source_throttle : Src_throttle.facts = expected_throttle.
 Proof. exact src_throttle_ok. Qed.
+(* more_executors/_impl/metrics/prometheus.py *)
+Theorem c20_source_metrics_prom : Src_metrics_prom.facts = expected_metrics_prom.
+Proof. exact src_metrics_prom_ok. Qed.
 
 Print Assumptions c20_source_metrics.
 Print Assumptions c20_source_retry.
 Print Assumptions c20_source_throttle.
+Print Assumptions c20_source_metrics_prom.
